@@ -10,10 +10,12 @@ CLAIMED = {
              'datetime-local patterns are sequences of captured digit runs and literal separators, for which the backtracking matcher '
              'finds exactly what a left-to-right split finds (RunFacts.ends_items, every subject), hence parse_value = split + int + '
              'validators for EVERY string (DateShape.parse_*), and for type=date, in both directions, accepted with (y, m, d) <=> a valid '
-             'HTML date string. number/range and match_range are an executable Gallina model run (extracted) against the implementation '
-             'and an independent HTML spec on every case.',
+             'HTML date string. The number pattern REGENERATED from RE_NUM accepts exactly the HTML valid floating-point numbers, for every '
+             'string (NumShape.num_accepts), through a general theorem: the backtracking matcher of the model finds exactly the matches of the '
+             'declarative language semantics (RegexLang.ends_sound / ends_complete). number/range arithmetic and match_range are an '
+             'executable Gallina model run (extracted) against the implementation and an independent HTML spec on every case.',
         note='Trusted: Coq kernel, translators T1/T4, extraction (ExtrOcamlBasic), model of strptime/isocalendar (cross-checked '
-             'every run), float(str) modelled as exact decimal. The number pattern RE_NUM is executed, not proved equivalent to the HTML grammar.',
+             'every run), float(str) modelled as exact decimal (the conversion of an accepted number string to a value is executed, not proved).',
         technique='Coq proof over source-translated validators and regexes (end-to-end for date strings) + extracted-model/implementation/spec differential'),
 }
 CLAIMED.update({
